@@ -21,8 +21,9 @@ func (c *Ctx) isErrorCtor(f *types.Func) bool {
 	switch f.Name() {
 	case "NewSyntaxError", "NewExpressionError", "NewMustacheError":
 		return c.relPkg(f.Pkg()) != ""
-	case "NewUnsupportedError":
-		return strings.HasSuffix(f.Pkg().Path(), "pip-services3-commons-gox/errors")
+	}
+	if strings.HasSuffix(f.Pkg().Path(), "pip-services3-commons-gox/errors") && strings.HasPrefix(f.Name(), "New") && strings.HasSuffix(f.Name(), "Error") {
+		return true
 	}
 	return false
 }
